@@ -639,6 +639,29 @@ func generate(cfg *hx.Config) []hx.Case {
 			}
 		}
 	}
+	// 6. none lost under load: many goroutines failing ONE verifier at the same
+	// moment, nothing else running; afterwards exactly T*N errors
+	loadSize := "16x2000"
+	if cfg.Thorough() {
+		loadSize = "16x5000"
+	}
+	for _, lt := range []byte("shmuqf") {
+		for _, sh := range []struct{ root, shape string }{
+			{"LOADB", "%s"}, {"LOADB", "F90hn(On;%s)"}, {"LOADM", "%s"}, {"LOADB", "Gn(%s,%s2)"},
+		} {
+			if sh.shape != "%s" && lt != 's' && lt != 'f' && lt != 'h' {
+				continue
+			}
+			tok := instantiate(sh.shape, lt, 'h')
+			kind := byte('q')
+			if lt == 's' {
+				kind = 's'
+			}
+			m := &message{kind: kind}
+			add("load", []string{sh.root, tok, m.token(), loadSize})
+			cfg.Count("gen=load")
+		}
+	}
 	return cases
 }
 
